@@ -541,8 +541,20 @@ func ownedAfterLoad(load *ssa.UnOp) bool {
 		}
 		if st, ok := in.(*ssa.Store); ok {
 			if fa2, ok := st.Addr.(*ssa.FieldAddr); ok && fa2.Field == fa.Field && fa2.X == fa.X {
-				// overwritten with something that is not derived from the load
-				if st.Val != ssa.Value(load) {
+				// overwritten with a fresh value: anything derived from the
+				// loaded value (e.g. x[:0]) still shares its storage
+				if !derives(st.Val, flowOpts{ThroughAllCalls: true}, func(v ssa.Value) bool {
+					if v == ssa.Value(load) {
+						return true
+					}
+					// another load of the same field
+					if u, ok := v.(*ssa.UnOp); ok && u.Op == token.MUL {
+						if fa3, ok := u.X.(*ssa.FieldAddr); ok && fa3.Field == fa.Field && fa3.X == fa.X {
+							return true
+						}
+					}
+					return false
+				}) {
 					return true
 				}
 			}
